@@ -72,7 +72,7 @@ static CaseResult system_case(Tape &t)
 	int nids = t.range(3, 20);
 	int nact = t.range(5, 80);
 	uint32_t wq = t.chance(1, 2) ? 12 : 5;   // half of the cases let queries pile up (more than 16 outstanding)
-	int n_unmatched = 0, n_reuse = 0, n_over16 = 0, n_replies = 0, n_relayed = 0, outstanding = 0, n_big = 0;
+	int n_unmatched = 0, n_reuse = 0, n_over16 = 0, n_replies = 0, n_relayed = 0, outstanding = 0, n_big = 0, n_runt = 0;
 	std::string trace;
 	auto note = [&](const std::string &x) { if (trace.size() < 1500) trace += "\n  " + x; if (getenv("VERIF_TRACE")) fprintf(stderr, "%.6f %s\n", sim::W.now / 1e6, x.c_str()); };
 	for (int a = 0; a < nact && !t.exhausted(); a++) {
@@ -117,6 +117,16 @@ static CaseResult system_case(Tape &t)
 				// replies of any size a UDP datagram can have (well-formed: additional TXT records are appended until the size is reached)
 				if (t.chance(1, 5)) { static const size_t SZ[] = {512, 513, 1232, 4095, 4096, 4097, 9000, 32768, 65000}; size_t want = t.chance(1, 2) ? SZ[t.below(9)] : 12 + t.below(20000); pad_reply(reply, want); n_big++; }
 			}
+			// a datagram too short to be a DNS message (1..11 bytes): whatever its first two bytes say, it is no reply to anybody's query;
+			// at most the requester who asked with those two bytes as id may get it
+			bool runt = t.chance(1, 6);
+			if (runt) {
+				size_t n = 1 + t.below(11);
+				Bytes rr(n); for (size_t i = 0; i < n; i++) rr[i] = (uint8_t)t.below(256);
+				if (n >= 2 && !t.chance(1, 4)) { rr[0] = (uint8_t)(id >> 8); rr[1] = (uint8_t)id; }
+				if (n >= 2 && rr[0] == 0 && rr[1] == 0 && t.chance(2, 3)) rr[1] = 7;
+				reply = rr; id = n >= 2 ? (uint16_t)((rr[0] << 8) | rr[1]) : 0; n_runt++;
+			}
 			std::vector<size_t> before(nreq); for (int k = 0; k < nreq; k++) before[k] = inbox[k].size();
 			sim::Datagram dg; dg.src = resolver; dg.dst = at_resolver.empty() ? sim::Addr::v4(192, 0, 2, 1, 40000) : at_resolver.back().first; dg.data = reply;
 			int copies = 1 + (int)t.pick({5, 1});
@@ -128,7 +138,10 @@ static CaseResult system_case(Tape &t)
 			int total = 0; std::vector<int> who;
 			for (int k = 0; k < nreq; k++) for (size_t i = before[k]; i < inbox[k].size(); i++) { total++; who.push_back(k); if (inbox[k][i].data != reply) r.fail("C20:reply-changed", fmt("requester%d received a reply that differs from what the local DNS server sent", k)); }
 			note(fmt("resolver replies id=%u x%d -> delivered to %d requester datagrams; model candidates %zu", id, copies, total, cand.size()));
-			if (cand.empty()) {
+			if (runt) {
+				for (int k : who) if (reply.size() < 2 || std::find(cand.begin(), cand.end(), k) == cand.end())
+					r.fail("C20:runt-delivered", fmt("a %zu-byte datagram from the local DNS port (%s), too short to be a DNS message, was sent to requester%d (%s), whose queries it answers none of (first two bytes as id: %u)", reply.size(), hexs(reply, 12).c_str(), k, req[k].str().c_str(), id));
+			} else if (cand.empty()) {
 				n_unmatched++;
 				if (total) r.fail("C20:unmatched-reply-delivered", fmt("a reply with id %u, which matches none of the 16 most recently forwarded queries, was sent to requester%d (%s)", id, who[0], req[who[0]].str().c_str()));
 			} else {
@@ -160,6 +173,7 @@ static CaseResult system_case(Tape &t)
 	if (n_reuse) r.cls("id-reuse");
 	if (n_unmatched) r.cls("unmatched-reply");
 	if (n_big) r.cls("reply-padded-to-a-large-size");
+	if (n_runt) r.cls("runt-datagram-from-the-local-dns-port");
 	return r;
 }
 
